@@ -51,6 +51,16 @@ def Py.isOk {α : Type} : Py α → Bool
   | .ok _ => true
   | .error _ => false
 
+/-- `List.foldlM` in `Py` that also returns the number of steps started (the failing step
+included): a step counter that survives the exception.  Erasing it gives `List.foldlM`
+(Proofs/Cost.lean `foldlMCounted_snd`). -/
+def foldlMCounted {σ ι : Type} (f : σ → ι → Py σ) : σ → List ι → Nat × Py σ
+  | s, [] => (0, .ok s)
+  | s, i :: is =>
+    match f s i with
+    | .error e => (1, .error e)
+    | .ok s' => ((foldlMCounted f s' is).1 + 1, (foldlMCounted f s' is).2)
+
 /-- Python's `int(a / b)` for non-negative integers `a`, `b > 0` *when the float quotient is
 exact enough*: the models use floor division and the theorems carry the side condition
 (`a < 2^53`), see DESIGN.md §4.1. -/
